@@ -281,6 +281,52 @@ pub fn decode(level: usize, depth: u32, mut idx: u64) -> Vec<AOp> {
     v
 }
 
+/// "towers": two towers `neg^i(X0)` and `neg^i(Y0)` over two model-equal bases of different size, with 0 or 2 extra
+/// parents at every level of either tower (they decide which class survives each merge), inserted X-first or Y-first,
+/// then ONE union of the bases (either orientation): the merges cascade upwards through congruence, and at each level
+/// either the class that holds the re-canonicalised e-node or its twin survives, with or without parents of its own.
+pub const TOWER_CASES: u64 = 2 * 4 * 4 * 16 * 16 * 2 * 2;
+
+pub fn towers_decode(mut idx: u64) -> Vec<AOp> {
+    let mut take = |n: u64| {
+        let r = idx % n;
+        idx /= n;
+        r
+    };
+    let base = take(2);
+    let dx = take(4) as usize;
+    let dy = take(4) as usize;
+    let ex = take(16);
+    let ey = take(16);
+    let x_first = take(2) == 0;
+    let flip = take(2) == 1;
+    let leaf = |s: &'static str| T { op: s, args: vec![] };
+    let n1 = |op: &'static str, a: T| T { op, args: vec![Arg::Child(Box::new(a))] };
+    let n2 = |op: &'static str, a: T, b: T| T { op, args: vec![Arg::Child(Box::new(a)), Arg::Child(Box::new(b))] };
+    let var0 = T { op: "var", args: vec![Arg::Slot(0)] };
+    let (x0, y0) = if base == 0 { (n2("add", leaf("1"), leaf("1")), leaf("2")) } else { (n2("add", var0.clone(), leaf("0")), var0.clone()) };
+    let tower = |b: &T, d: usize, extras: u64| -> Vec<AOp> {
+        let mut v = Vec::new();
+        let mut cur = b.clone();
+        for lvl in 0..=d {
+            if lvl > 0 {
+                cur = n1("neg", cur);
+            }
+            v.push(AOp::Add(cur.clone()));
+            if extras >> lvl & 1 == 1 {
+                v.push(AOp::Add(n2("mul", cur.clone(), leaf("1"))));
+                v.push(AOp::Add(n2("add", cur.clone(), leaf("1"))));
+            }
+        }
+        v
+    };
+    let tx = tower(&x0, dx, ex);
+    let ty = tower(&y0, dy, ey);
+    let mut ops: Vec<AOp> = if x_first { tx.into_iter().chain(ty).collect() } else { ty.into_iter().chain(tx).collect() };
+    ops.push(if flip { AOp::Union(y0, x0) } else { AOp::Union(x0, y0) });
+    ops
+}
+
 pub fn add_ar<N: Analysis<Ar>>(eg: &mut EGraph<Ar, N>, t: &T) -> AppliedId {
     eg.add_expr(ar_recexpr(t))
 }
@@ -551,24 +597,32 @@ impl Prop for AnalysisProp {
                 let n = alphabet(lvl).len() as u64;
                 Seg { name: format!("ops{lvl}^{d}"), count: n.pow(d), what: format!("one index = one sequence of {d} operations over a {n}-operation alphabet (insertions of small arithmetic terms - level 2: 16 hand-made terms around cascading merges -, every model-valid union between them, 5 rewrite-iteration rule sets), run under each of the four analyses") }
             })
+            .chain(std::iter::once(Seg { name: "towers".into(), count: TOWER_CASES, what: "one index = two towers neg^i(X0), neg^j(Y0) (i, j <= 3) over two model-equal bases of different size (ground and with a slot), 0 or 2 extra parents at every level of either tower, inserted X-first or Y-first, then one union of the bases in either orientation; run under each of the four analyses".into() }))
             .collect()
     }
     fn goals(&self) -> Vec<&'static str> {
         vec!["union_of_classes_with_different_data", "rewrite_iteration", "classes_merged", "constant_class_checked_against_model"]
     }
     fn rule(&self) -> String {
-        "Every ordered sequence of the stated length over: insertion of every arithmetic term of size <=2 (level 1: <=3; level 2: 16 hand-made terms whose unions cascade: parents that become congruent, classes dying into a class with fewer slots), every union of two such terms that denote the same function in F_5 and F_7, and five rewrite-iteration rule sets, is executed four times, under the analyses min-size (merge=min), constant folding in F_5 with a modify hook that adds the constant, depth (merge=min) and size-set (the set of term sizes mod 8 a class represents, merge=set union: a cyclic class reaches its fixpoint only if a self-referential e-node is re-evaluated repeatedly). After EVERY operation, at EVERY live class: the datum equals the join of make over eg.enodes() on the current data, equals an independently computed least fixpoint, and a union's result absorbs both previous data; analysis_data read through EVERY handle ever returned (all sub-terms, however many merges stale, read before anything canonicalises them) equals the datum of the class the handle now belongs to; at the end min-size equals Extractor::get_best_cost(AstSize), a Some(v) constant class denotes the constant v in the finite-field model, and no two different constants were ever merged. Non-trivial = sequences with a rewrite iteration or a union.".into()
+        "Every ordered sequence of the stated length over: insertion of every arithmetic term of size <=2 (level 1: <=3; level 2: 16 hand-made terms whose unions cascade: parents that become congruent, classes dying into a class with fewer slots), every union of two such terms that denote the same function in F_5 and F_7, and five rewrite-iteration rule sets, is executed four times, under the analyses min-size (merge=min), constant folding in F_5 with a modify hook that adds the constant, depth (merge=min) and size-set (the set of term sizes mod 8 a class represents, merge=set union: a cyclic class reaches its fixpoint only if a self-referential e-node is re-evaluated repeatedly). After EVERY operation, at EVERY live class: the datum equals the join of make over eg.enodes() on the current data, equals an independently computed least fixpoint, and a union's result absorbs both previous data; analysis_data read through EVERY handle ever returned (all sub-terms, however many merges stale, read before anything canonicalises them) equals the datum of the class the handle now belongs to; at the end min-size equals Extractor::get_best_cost(AstSize), a Some(v) constant class denotes the constant v in the finite-field model, and no two different constants were ever merged. A further segment ('towers') enumerates two towers neg^i(X0), neg^j(Y0) over model-equal bases of different size with 0 or 2 extra parents per level, both insertion orders, then one union of the bases in either orientation (32 768 cases): merges that cascade upwards, at every level either side surviving, with or without parents. Non-trivial = sequences with a rewrite iteration or a union.".into()
     }
     fn assumptions(&self) -> Vec<String> {
         vec!["unions are restricted to model-valid equations so that constant folding has a meaning".into()]
     }
     fn describe(&self, tier: Tier, _cfg: &str, seg: usize, idx: u64) -> Value {
+        if seg == spaces(tier).len() {
+            return json!({"sequence": towers_decode(idx).iter().map(|o| o.show()).collect::<Vec<_>>()});
+        }
         let (lvl, d) = spaces(tier)[seg];
         json!({"sequence": decode(lvl, d, idx).iter().map(|o| o.show()).collect::<Vec<_>>()})
     }
     fn exec(&self, tier: Tier, _cfg: &str, seg: usize, idx: u64) -> Exec {
-        let (lvl, d) = spaces(tier)[seg];
-        let ops = decode(lvl, d, idx);
+        let ops = if seg == spaces(tier).len() {
+            towers_decode(idx)
+        } else {
+            let (lvl, d) = spaces(tier)[seg];
+            decode(lvl, d, idx)
+        };
         let mut out = Exec::default();
         let opsv: Vec<String> = ops.iter().map(|o| o.show()).collect();
         for which in 0..4 {
